@@ -351,7 +351,19 @@ def oracle_cbcheck(case, R):
     rbg_exp = np.vstack([cs.rigid_rows(frames_g[g], xyz_g[g] - P_g) for g in dgrids])
     rbtrue_g = Sn.rb_local(P_g, dgrids)
     rb_norm = case["rb_norm"]
-    norm_eff = bool(rb_norm) if rb_norm is not None else bool(np.any(np.diff(bref_new) != 1))
+    # the six reference DOF may be listed in any order ("6-element subset of bseto"); without normalisation
+    # and without reordering the order defines the columns of the stiffness-based modes, so that one
+    # combination keeps the ascending list
+    bref_call = bref
+    if case.get("bref_order") is not None and not fault and (reorder or rb_norm is not False):
+        bref_call = bref[util.rng_of(case["bref_order"]).permutation(6)]
+        R.label("bref:listed_unordered" if np.any(np.diff(bref_call) < 0) else "bref:listed_ascending")
+    if rb_norm is not None:
+        norm_eff = bool(rb_norm)
+    elif reorder:
+        norm_eff = bool(np.any(np.diff(bref_new) != 1))       # (re-derived in ascending order internally)
+    else:
+        norm_eff = bool(np.any(np.diff(bref_call) != 1))
     if norm_eff:
         Nrm = np.eye(6)
         if moved:
@@ -397,12 +409,12 @@ def oracle_cbcheck(case, R):
         kw["uref"] = uref_arg
     if case.get("to_file"):
         path = util.tmpfile("cbcheck.out")
-        out = cb.cbcheck(path, Mcb, Kcb, bseto, bref, uset, **kw)
+        out = cb.cbcheck(path, Mcb, Kcb, bseto, bref_call, uset, **kw)
         with open(path) as fh:
             text = fh.read()
     else:
         f = io.StringIO()
-        out = cb.cbcheck(f, Mcb, Kcb, bseto, bref, uset, **kw)
+        out = cb.cbcheck(f, Mcb, Kcb, bseto, bref_call, uset, **kw)
         text = f.getvalue()
     # ---- returned b-set, matrices, uset
     if reorder:
@@ -604,6 +616,17 @@ def oracle_cbcheck(case, R):
         R.metric("cbcoordchk_coords/len", e)
         R.check(e <= TOL_RB, "cbcoordchk_coords", f"err={e:.3g}")
         R.check(co.refpoint_chk == "pass", "cbcoordchk_refpoint_chk", co.refpoint_chk)
+        # reference DOF listed in another order, normaliser rows in the same order: same normalised modes
+        prm = util.rng_of(case["seed"] + 77).permutation(6)
+        Nz = np.eye(6) + 0.2 * util.rng_of(case["seed"] + 78).standard_normal((6, 6))
+        refs = np.asarray(bs_d[bref_new] if reorder else np.sort(bref))
+        ca = cb.cbcoordchk(out.k, bs_d if reorder else bs, refs, verbose=False, outfile=io.StringIO(),
+                           rb_normalizer=Nz)
+        cp = cb.cbcoordchk(out.k, bs_d if reorder else bs, refs[prm], verbose=False, outfile=io.StringIO(),
+                           rb_normalizer=Nz[prm])
+        e = float(np.abs(ca.rbmodes - cp.rbmodes).max()) / max(float(np.abs(ca.rbmodes).max()), 1e-300)
+        R.metric("cbcoordchk_refpoint_order", e)
+        R.check(e <= TOL_RB, "cbcoordchk_depends_on_refpoint_order", f"relerr={e:.3g} order={prm.tolist()}")
     # ---- fixed-base modes and effective mass
     frq = np.sqrt(red["lam"]) / (2 * math.pi)
     e = util.relerr(np.asarray(out.cb_frq), frq)
@@ -719,6 +742,7 @@ def cb_cases(draw, variant="valid"):
         case["rb_norm"] = draw(st.sampled_from([None, True]))
     else:
         case["bref"] = {"kind": "grid", "k": draw(st.integers(0, nbg - 1))}
+    case["bref_order"] = draw(st.one_of(st.none(), st.integers(0, 10 ** 6)))
     uk = draw(st.sampled_from(["grid", "xyz", "default"]))
     case["uref"] = ({"kind": "grid", "k": draw(st.integers(0, nbg - 1))} if uk == "grid" else
                     {"kind": "xyz", "xyz": [draw(_f(-2, 2)), draw(_f(-2, 2)), draw(_f(-2, 2))]} if uk == "xyz"
